@@ -404,7 +404,7 @@ def main():
         return "wl_spec " + " ".join(map(str, toks))
 
     # ---- generate stub cases ----------------------------------------------------------------
-    n_cases = 12000 if T else 1500
+    n_cases = 25000 if T else 1500
     cases = []
     # the recorded witness first (DESIGN.md section 8 #11), then its neighbours
     wit = {"acc": Accelerator.Ethos_U65_512, "kind": "conv", "ifm": "int8", "shape": (1, 1, 4, 8), "dil": 1, "wdt": "int8",
@@ -711,7 +711,7 @@ def main():
     seq_same_reqs, seq_meta = [], []
     cache_model_reqs, cache_real = [], []
     scale_only = []      # (args, scale tensor) of weights-only hits
-    n_worlds = 400 if T else 60
+    n_worlds = 800 if T else 60
     for wi in range(n_worlds):
         cache.clear()
         base = gen_case({"acc": rng.choice([Accelerator.Ethos_U65_512, Accelerator.Ethos_U55_128, Accelerator.Ethos_U65_256])})
@@ -1046,7 +1046,7 @@ def main():
     # (d) a single (not double) weight buffer with several depth slices
     compile_and_check("single_buffer_560_vs_2864", overflow_net(), ["--accelerator-config", "ethos-u55-64", "--arena-cache-size", "4000", "--optimise", "Performance"])
     # (e) random weight-heavy networks: scheduler-produced depth slices, incl. two cores
-    n_nets = 400 if T else 45
+    n_nets = 700 if T else 45
     for it in range(n_nets):
         r = _random.Random(ck.seed * 7919 + it)
         b = netgen.B(r, f"wnet{it}", r.choice(["int8", "int8", "uint8", "int16"]))
